@@ -323,6 +323,8 @@ static void behave(int i, enum aws_task_status status) {
     }
 }
 
+static struct aws_task_scheduler SB;
+static int SB_live;
 static void task_fn(struct aws_task *task, void *arg, enum aws_task_status status) {
     int i = (int)(intptr_t)arg;
     if (i < 0 || i >= g_cfg.nt || task != T[i]) {
@@ -337,6 +339,10 @@ static void task_fn(struct aws_task *task, void *arg, enum aws_task_status statu
     ev[status == AWS_TASK_STATUS_RUN_READY ? EV_INV_RUN : EV_INV_CANCELED]++;
     monitor_invoke(i, status);
     if (esx_failed) return; /* no behaviours once the verdict is in: keeps the first report the only one */
+    /* every task function also drives a second, unrelated scheduler (empty: its run-all has nothing to do).  Two schedulers are
+     * two objects: running one from inside a task of the other does not disturb the batch that is being executed (added after a
+     * seeded change that made the run-all batch list a function-level static) */
+    if (SB_live) aws_task_scheduler_run_all(&SB, 1000);
     if (cx.mode == M_RUN && ++ref[i].inv_in_op == 2) ev[EV_TWICE_IN_RUN]++;
     behave(i, status);
 }
@@ -350,6 +356,11 @@ static void m_reset(void) {
     for (int i = 0; i < g_cfg.nt; ++i) {
         T[i] = (struct aws_task *)aws_mem_acquire(a, sizeof(struct aws_task));
         aws_task_init(T[i], task_fn, (void *)(intptr_t)i, "c07");
+    }
+    SB_live = 0;
+    if (!INJ) { /* (not in the allocation-failure configurations: the companion's own allocations would shift the injection points) */
+        if (aws_task_scheduler_init(&SB, a)) _exit(2);
+        SB_live = 1;
     }
     g_base_blocks = ga.live_blocks;
     if (aws_task_scheduler_init(S, a)) {
